@@ -45,6 +45,9 @@ type Case struct {
 	Initial  int       `json:"initial_loads"`
 	Clients  [][]Op    `json:"clients"`
 	Schedule []int     `json:"schedule"` // (client, run length) pairs flattened
+	// ProbeEvery > 0: after every ProbeEvery-th granted step (atomic storage only) a copy of the store is opened
+	// cold and every branch must be replayable at that very moment.
+	ProbeEvery int `json:"probe_every,omitempty"`
 	// Sequential drain: after the schedule, the remaining clients run to completion one after the other (client of
 	// the last run first) instead of round-robin; used by the exhaustive <=2-preemption enumeration.
 	SeqDrain bool `json:"seq_drain,omitempty"`
@@ -92,6 +95,7 @@ func genCase(t *rapid.T) Case {
 		}
 		c.Clients = append(c.Clients, ops)
 	}
+	c.ProbeEvery = rapid.SampledFrom([]int{0, 3, 5, 8}).Draw(t, "probe")
 	nr := rapid.IntRange(2, 14).Draw(t, "nruns")
 	for i := 0; i < nr; i++ {
 		c.Schedule = append(c.Schedule, rapid.IntRange(0, nc-1).Draw(t, "client"), rapid.IntRange(1, 10).Draw(t, "run"))
@@ -393,6 +397,8 @@ func runCase(c Case) *vt.Outcome {
 	}
 	lastPath := make([]string, nc)
 	spin := make([]int, nc)
+	var momentFail *vt.Failure
+	probes := 0
 	preemptions := 0
 	grant := func(ci int) bool {
 		op := gate.Step(ci)
@@ -401,7 +407,12 @@ func runCase(c Case) *vt.Outcome {
 		}
 		mu.Lock()
 		granted++
+		g := granted
 		mu.Unlock()
+		if c.ProbeEvery > 0 && mode == memstore.Atomic && momentFail == nil && op.Mutating() && g%c.ProbeEvery == 0 {
+			momentFail = probeMoment(ctx, store.Clone(), mode, g, op)
+			probes++
+		}
 		if op.Kind == "get" && (op.Class == "HEAD" || op.Class == "TAIL") && lastPath[ci] == op.Path {
 			spin[ci]++
 		} else {
@@ -704,6 +715,14 @@ func runCase(c Case) *vt.Outcome {
 		}
 		return nil
 	}
+	if momentFail != nil {
+		momentFail.Msg += "\n" + describe()
+		o.Fail = momentFail
+		return o
+	}
+	if probes > 0 {
+		o.Label("moment-probes")
+	}
 	if len(acked) > 7 {
 		return &vt.Outcome{Skip: "too-many-acked-ops"}
 	}
@@ -798,6 +817,40 @@ func perform(ctx context.Context, lk *lakeh.Lake, c *Case, e *event, poolIDs map
 		return api.AddVectors(ctx, id.String(), op.Branch, toIDs(), lakeh.Msg)
 	}
 	return ksuid.Nil, fmt.Errorf("unknown op %s", op.Kind)
+}
+
+// probeMoment opens a copy of the store as it is right after a granted step and requires every branch of every
+// pool to be listed and replayable ("at every moment the action log of every branch can be replayed").
+func probeMoment(ctx context.Context, st *memstore.Store, mode memstore.Mode, g int, after *memstore.Op) *vt.Failure {
+	cold, err := lakeh.Open(ctx, st, mode, nil)
+	if err != nil {
+		return fail("C12/moment/lake-unreadable", "right after granted step %d (%s) the lake cannot be opened: %v", g, after, err)
+	}
+	pools, err := cold.Root.ListPools(ctx)
+	if err != nil {
+		return fail("C12/moment/pools-unreadable", "right after granted step %d (%s): %v", g, after, err)
+	}
+	for _, pc := range pools {
+		p, err := cold.Root.OpenPool(ctx, pc.ID)
+		if err != nil {
+			// a pool is registered last on creation and its directory removed after deregistration on drop; a listed
+			// pool must therefore be openable
+			return fail("C12/moment/pool-unreadable", "right after granted step %d (%s) pool %s is listed but cannot be opened: %v", g, after, pc.Name, err)
+		}
+		brs, err := p.ListBranches(ctx)
+		if err != nil {
+			return fail("C12/moment/branches-unreadable", "right after granted step %d (%s) pool %s: %v", g, after, pc.Name, err)
+		}
+		for _, b := range brs {
+			if b.Commit == ksuid.Nil {
+				continue
+			}
+			if _, err := p.Snapshot(ctx, b.Commit); err != nil {
+				return fail("C12/moment/branch-unreplayable", "right after granted step %d (%s) branch %s@%s (tip %s) cannot be replayed: %v", g, after, pc.Name, b.Name, b.Commit, err)
+			}
+		}
+	}
+	return nil
 }
 
 // lastGrants is the number of storage steps granted by the most recent runCase (used by the pair enumeration to
